@@ -18,7 +18,7 @@ use std::sync::atomic::Ordering;
 pub struct Entry {
     key: u8,
     msg: u8,
-    corrupt: u8, // 0 honest, 1 key->other honest, 2 message bit, 3 R->other honest R, 4 R undecodable, 5 S+l, 6 S->other honest S,
+    corrupt: u8, // 0 honest, 1 key->other honest, 2 message bit, 3 R->other honest R, 4 R undecodable, 5 S+l, 6 S->other honest S, 8 key holder's R = identity (valid for the plain rule),
                  // 7 R undecodable with S = H(R,A,M)*a: the entry whose remaining terms cancel if its R term is dropped
 }
 
@@ -76,6 +76,17 @@ impl World {
             7 => {
                 let mut rb = [0u8; 32];
                 rb[0] = 2;
+                let key_m = eddsa::keygen(&self.seeds[k]);
+                let h = Zl::from_le(&eddsa::sha512(&[&rb, &key_m.public, &msg]));
+                let sv = h.mul(&Zl::new(&key_m.a));
+                sig[..32].copy_from_slice(&rb);
+                sig[32..].copy_from_slice(&sv.0.to_le32());
+            }
+            8 => {
+                // the key holder's signature with R = identity (nonce 0): small-order R, individually *valid* for the
+                // plain rule the batch equation implements (a strict verifier would refuse it)
+                let mut rb = [0u8; 32];
+                rb[0] = 1;
                 let key_m = eddsa::keygen(&self.seeds[k]);
                 let h = Zl::from_le(&eddsa::sha512(&[&rb, &key_m.public, &msg]));
                 let sv = h.mul(&Zl::new(&key_m.a));
@@ -223,6 +234,9 @@ pub fn run(ctx: &Ctx) {
                 continue;
             }
             menu.push(Entry { key: k, msg: m, corrupt: c });
+        }
+        if (k, m) == (0, 0) {
+            menu.push(Entry { key: k, msg: m, corrupt: 8 });
         }
     }
     let max_len = if quick { 2 } else if ctx.deep { 4 } else { 3 };
